@@ -10,6 +10,7 @@ CONSTANTS
   Horizon = 60
   MaxEx = 40
   ProbeNs <- GProbes
+  ProbeUids <- GUids
   Exhaustive = FALSE
   Biases <- BiasAll
   TickPct = 12
